@@ -9,7 +9,7 @@ from ..astutil import (ERROR_CLASSES, ERROR_ONLY_HELPERS, Locals, call_name, cfg
                        error_names, names_in, norm, region, resolved_text, returns_error, role_anon, short, stmt_calls, stmt_of, where)
 from ..cfg import CFG, EXIT, walk_own
 from ..core import Report
-from ..pyindex import FuncInfo
+from ..pyindex import FuncInfo, dotted
 
 LEVEL = ("containment mechanisms only (byte equality of two trees is a relation between runs and is not decided): dependency "
          "recording on every successful path and roots forwarded to every recursive build; removal closed over recorded "
@@ -29,11 +29,15 @@ def run(rep: Report, ctx: Any) -> str:
     cfgs: dict[str, CFG] = {}
     rep.rule("R08.1", "dependency recording is unconditional: every successful return of a function that resolves a schema reference "
                       "passes through add_dependencies; `roots` is forwarded to every recursive property_from_data call")
-    rep.rule("R08.2", "removal is closed: _propogate_removal deletes the reference and recurses over recorded dependants; "
+    rep.rule("R08.2", "removal is closed: _propogate_removal (with its private helpers) deletes the reference, pops class names and removes "
+                      "each recorded dependant in turn (recursion per dependant, or dependants put on the worklist it consumes); "
                       "_process_model_errors applies it to every root of every failed model")
     rep.rule("R08.3", "the threaded state (schemas / parameters) is rebound only from results of steps that received it: a failure "
                       "hands back the caller's state, never a stale snapshot")
-    rep.rule("R08.4", "loop containment: inside the per-item loops no `return` / `break` ends the traversal because of one item")
+    rep.rule("R08.4", "loop containment: in the per-item loops (of the containment functions and of the private helpers that work on the "
+                      "threaded state for them) no `return` / `break` ends the traversal because of one item: none at all in a `for`; in a "
+                      "`while`, none whose reaching is decided by a branch on the item the iteration took from its worklist (how a loop "
+                      "over rounds ends - flag, `while True` + break, return - is not an item's doing)")
     rep.rule("R08.5", "Schemas.add_dependencies stores a fresh set and only copies the caller's roots into it")
     rep.rule("R08.6", "only exclusively owned classes are recorded for removal: an add_dependencies call either forwards the `roots` it was "
                       "given, or records a class name for which the recording function rejects an already registered class of that name "
@@ -42,7 +46,9 @@ def run(rep: Report, ctx: Any) -> str:
                       "parser contains must not be turned into a failure of the whole document before the parser sees it")
     rep.rule("R08.8", "the product of a fallible, state-threading build step made for an item is never dropped: from the step, every way "
                       "to the end of the iteration hands the product (or its error) on - a piece that does not contribute is skipped "
-                      "before it is built, so it can neither fail its container nor leave classes behind")
+                      "before it is built, so it can neither fail its container nor leave classes behind (which results of the step are "
+                      "fallible products is read off its declared return type; the product is followed through the locals, collections "
+                      "and loop variables that come to hold it)")
 
     # ---- R08.1 -----------------------------------------------------------------------------------------------------
     pfr = ix.func("properties._property_from_ref")
@@ -88,7 +94,7 @@ def run(rep: Report, ctx: Any) -> str:
                              f"{f.cls.name}.build builds its member schemas through property_from_data without `roots`: a model whose union "
                              "member refers to a schema that is later removed keeps importing the removed module", where(f, c),
                              lhs="no roots parameter", rhs="roots forwarded from property_from_data")
-    rep.floor("recursive_build_calls", n_calls, 4)
+    rep.floor("recursive_build_calls", n_calls, 2)
     pfd = ix.func("properties.property_from_data")
     for c in ast.walk(pfd.node):
         if isinstance(c, ast.Call) and call_name(c).endswith(".build"):
@@ -101,23 +107,7 @@ def run(rep: Report, ctx: Any) -> str:
                           where(pfd, c), lhs=kws.get("roots"), rhs="roots")
 
     # ---- R08.2 ------------------------------------------------------------------------------------------------------------
-    pr = ix.func("properties._propogate_removal")
-    t = norm(pr.node)
-    deletes_ref = any(isinstance(n, ast.Delete) and "classes_by_reference" in norm(n) for n in ast.walk(pr.node)) or \
-        "classes_by_reference.pop(" in t
-    visits_deps = any(isinstance(n, (ast.For, ast.ListComp, ast.GeneratorExp)) and "dependencies" in norm(getattr(n, "iter", n)) for n in ast.walk(pr.node)) \
-        or ".extend(schemas.dependencies" in t or ".extend(sorted(schemas.dependencies" in t
-    pops_class = "classes_by_name.pop(" in t or any(isinstance(n, ast.Delete) and "classes_by_name" in norm(n) for n in ast.walk(pr.node))
-    rep.check(deletes_ref and visits_deps and pops_class, "R08.2", "_propogate_removal::closed",
-              "removal no longer deletes the reference, pops class names and visits the recorded dependants", where(pr, pr.node),
-              lhs=[deletes_ref, visits_deps, pops_class], rhs="delete reference, visit dependants, pop class names")
-    pme = ix.func("properties._process_model_errors")
-    t = norm(pme.node)
-    loops_ = [n for n in ast.walk(pme.node) if isinstance(n, ast.For)]
-    outer = [n for n in loops_ if norm(n.iter) == "model_errors"]
-    inner = [n for n in loops_ if norm(n.iter).endswith(".roots")]
-    rep.check(bool(outer) and bool(inner) and any(x is inner[0] for x in ast.walk(outer[0])) and "_propogate_removal(root=" in t, "R08.2",
-              "_process_model_errors::every-root", "removal is not applied to every root of every failed model", where(pme, pme.node))
+    _removal_closed(rep, ix)
 
     # ---- R08.3 --------------------------------------------------------------------------------------------------------------
     n_thr = 0
@@ -160,40 +150,30 @@ def run(rep: Report, ctx: Any) -> str:
                 rep.check(ok, "R08.3", f"{short(f)}::{var} = {norm(v)[:40]}",
                           f"`{var}` is rebound from something that is not the result of a step which received it (a stale snapshot discards "
                           "the classes registered by earlier, valid items)", where(f, a), lhs=norm(a)[:80], rhs="result of f(..., " + var + "=...) / evolve")
-    rep.floor("threaded_state_assignments", n_thr, 30)
-    # error returns hand back the input state
+    rep.floor("threaded_state_assignments", n_thr, 21)
+    # error returns hand back the input state (which element of the returned tuple is the Schemas is read off the declared return type)
     n_ret = 0
     for f in ix.all_functions:
-        ann = norm(f.node.returns) if f.node.returns is not None else ""
-        if "tuple[" not in ann or "Schemas" not in ann:
+        ann = _annotation(f.node.returns)
+        if not (isinstance(ann, ast.Subscript) and (dotted(ann.value) or "").rsplit(".", 1)[-1] in ("tuple", "Tuple")):
+            continue
+        parts = list(ann.slice.elts) if isinstance(ann.slice, ast.Tuple) else [ann.slice]
+        at = [i for i, p_ in enumerate(parts) if "Schemas" in _type_names(p_)]
+        if not at:
             continue
         errs = error_names(f.node)
         for r in ast.walk(f.node):
-            if isinstance(r, ast.Return) and isinstance(r.value, ast.Tuple) and len(r.value.elts) >= 2 and returns_error(r, errs):
+            if isinstance(r, ast.Return) and isinstance(r.value, ast.Tuple) and len(r.value.elts) == len(parts) and returns_error(r, errs):
                 n_ret += 1
-                s2 = r.value.elts[1]
-                rep.check(isinstance(s2, ast.Name) and s2.id in ("schemas",), "R08.3", f"{short(f)}::error-return-state[{norm(r.value.elts[0])[:30]}]",
+                states = [r.value.elts[i] for i in at]
+                label = next((norm(e) for i, e in enumerate(r.value.elts) if i not in at), "")
+                rep.check(all(isinstance(s2, ast.Name) and s2.id == "schemas" for s2 in states), "R08.3", f"{short(f)}::error-return-state[{label[:30]}]",
                           "an error is returned together with something other than the threaded `schemas` variable", where(f, r),
-                          lhs=norm(s2), rhs="schemas")
-    rep.floor("error_returns_with_state", n_ret, 20)
+                          lhs=[norm(s2) for s2 in states], rhs="schemas")
+    rep.floor("error_returns_with_state", n_ret, 16)
 
     # ---- R08.4 ----------------------------------------------------------------------------------------------------------------
-    n_l = 0
-    for f in ix.all_functions:
-        if short(f) not in CONTAIN_LOOPS:
-            continue
-        for lp in [n for n in ast.walk(f.node) if isinstance(n, (ast.For, ast.While))]:
-            n_l += 1
-            for st in ast.walk(lp):
-                if isinstance(st, (ast.Return, ast.Break)) and st is not lp:
-                    # returns inside nested function definitions do not count
-                    if any(isinstance(g, (ast.FunctionDef, ast.Lambda)) and any(x is st for x in ast.walk(g)) for g in ast.walk(lp)):
-                        continue
-                    rep.fail("R08.4", f"{short(f)}::{type(st).__name__.lower()}-inside-loop[{norm(getattr(lp, 'iter', getattr(lp, 'test', None)))[:40]}]",
-                             "one item ends the traversal of all remaining items (`return`/`break` inside the per-item loop)", where(f, st),
-                             lhs=norm(st)[:60], rhs="continue / re-queue")
-            rep.ok("R08.4", f"{short(f)}::loop[{norm(getattr(lp, 'iter', getattr(lp, 'test', None)))[:40]}]", "no return/break", "per-item containment")
-    rep.floor("containment_loops", n_l, 12)
+    _loops_contain(rep, ix, cfgs)
 
     check_no_alias(rep, ctx, "R08.5")
     _exclusive_dependants(rep, ix, cfgs)
@@ -249,6 +229,241 @@ def _parent_call(fn: ast.AST, node: ast.AST) -> ast.Call | None:
         if isinstance(c, ast.Call) and any(x is node for x in ast.walk(c)) and c is not node:
             best = c
     return best
+
+
+# ---- R08.2: removal is closed over the recorded dependants ----------------------------------------------------------------------
+
+GROW = {"extend", "update", "append", "add", "extendleft", "appendleft", "insert", "put", "put_nowait"}
+
+
+def _drops_entry(g: FuncInfo, attr: str) -> bool:
+    """g deletes an entry of <...>.<attr> (del x.attr[k] / x.attr.pop(k), also through a local bound to x.attr)"""
+    for n in ast.walk(g.node):
+        recv = None
+        if isinstance(n, ast.Delete):
+            recv = next((t.value for t in n.targets if isinstance(t, ast.Subscript) and attr in resolved_text(t.value, g.node)), None)
+        elif isinstance(n, ast.Call) and isinstance(n.func, ast.Attribute) and n.func.attr in ("pop", "__delitem__"):
+            recv = n.func.value if attr in resolved_text(n.func.value, g.node) else None
+        if recv is not None:
+            return True
+    return False
+
+
+def _revisits_dependants(g: FuncInfo, names: set[str]) -> bool:
+    """what is recorded under <...>.dependencies is itself removed: a loop over it whose body calls the removal again for its element
+    (recursion), or it is put on the worklist the removal loop takes its items from (iteration)"""
+    def deps(e: ast.AST) -> bool:
+        return ".dependencies" in resolved_text(e, g.node)
+
+    worklists: set[str] = set()
+    for lp in ast.walk(g.node):
+        if isinstance(lp, ast.While):
+            worklists |= _take(lp)[1]
+        elif isinstance(lp, (ast.For, ast.AsyncFor)):
+            worklists |= names_in(lp.iter)
+    for n in ast.walk(g.node):
+        if isinstance(n, (ast.For, ast.AsyncFor)) and deps(n.iter):
+            tg = names_in(n.target)
+            if any(isinstance(c, ast.Call) and call_name(c).rsplit(".", 1)[-1] in names and
+                   any(names_in(a) & tg for a in [*c.args, *[k.value for k in c.keywords]]) for b in n.body for c in ast.walk(b)):
+                return True
+        if isinstance(n, (ast.ListComp, ast.SetComp, ast.GeneratorExp)) and any(deps(gen.iter) for gen in n.generators):
+            tg = set().union(*[names_in(gen.target) for gen in n.generators])
+            if any(isinstance(c, ast.Call) and call_name(c).rsplit(".", 1)[-1] in names and
+                   any(names_in(a) & tg for a in [*c.args, *[k.value for k in c.keywords]]) for c in ast.walk(n.elt)):
+                return True
+        if isinstance(n, ast.Call) and isinstance(n.func, ast.Attribute) and n.func.attr in GROW and _root_name(n.func.value) in worklists \
+                and any(deps(a) for a in n.args):
+            return True
+        if isinstance(n, ast.AugAssign) and isinstance(n.target, ast.Name) and n.target.id in worklists and deps(n.value):
+            return True
+        if isinstance(n, ast.Assign) and deps(n.value) and names_in(n.value) & worklists and \
+                any(names_in(t) & worklists for t in n.targets):
+            return True  # pending = pending + deps / [*pending, *deps]
+    return False
+
+
+def _removal_closed(rep: Report, ix: Any) -> None:
+    pr = ix.func("properties._propogate_removal")
+    reg = region(ix, pr)
+    names = {g.name for g in reg}
+    deletes_ref = any(_drops_entry(g, "classes_by_reference") for g in reg)
+    pops_class = any(_drops_entry(g, "classes_by_name") for g in reg)
+    visits_deps = any(_revisits_dependants(g, names) for g in reg)
+    rep.check(deletes_ref and visits_deps and pops_class, "R08.2", "_propogate_removal::closed",
+              "removal no longer deletes the reference, pops class names and visits the recorded dependants", where(pr, pr.node),
+              lhs=[deletes_ref, visits_deps, pops_class], rhs="delete reference, visit dependants, pop class names")
+    # every root of every failed model: the removal is called (here or in a private helper) with an element of <model>.roots, the model
+    # being an element of model_errors
+    pme = ix.func("properties._process_model_errors")
+    ok = False
+    for g in region(ix, pme):
+        if g.qual == pr.qual:
+            continue
+        for c in ast.walk(g.node):
+            if not (isinstance(c, ast.Call) and call_name(c).rsplit(".", 1)[-1] == pr.name):
+                continue
+            kws = {k.arg: k.value for k in c.keywords}
+            root = kws.get("root", c.args[0] if c.args else None)
+            if root is None or not _each_of(root, g.node, ".roots"):
+                continue
+            if g.qual == pme.qual:
+                ok = ok or _each_of(root, g.node, "model_errors")
+            else:  # the helper handles one model: it is called for each of model_errors
+                ok = ok or any(isinstance(c2, ast.Call) and call_name(c2).rsplit(".", 1)[-1] == g.name and
+                               any(_each_of(a, pme.node, "model_errors") for a in [*c2.args, *[k.value for k in c2.keywords]])
+                               for c2 in ast.walk(pme.node))
+    rep.check(ok, "R08.2", "_process_model_errors::every-root", "removal is not applied to every root of every failed model", where(pme, pme.node))
+
+
+def _each_of(e: ast.AST, fn: ast.AST, what: str, depth: int = 4) -> bool:
+    """e is (computed from) a loop / comprehension variable that runs over - or an element taken off - something whose text, followed
+    through the locals it is made of, mentions `what`"""
+    lc = Locals(fn)
+    seen: set[str] = set()
+    frontier = names_in(e)
+    for _ in range(depth):
+        nxt: set[str] = set()
+        for n in sorted(frontier - seen):
+            seen.add(n)
+            for kind, _, v in lc.defs.get(n, []):
+                if v is None:
+                    continue
+                if (kind.startswith("for") or _taken_from(v) is not None) and what in resolved_text(v, fn):
+                    return True
+                nxt |= names_in(v)
+        frontier = nxt
+    return False
+
+
+# ---- R08.4: an item never ends the traversal ------------------------------------------------------------------------------------
+
+TAKES = {"pop", "popleft", "popitem", "get_nowait"}
+STATE_CLASSES = {"Schemas", "Parameters"}
+
+
+def _own_nodes(lp: ast.AST) -> list[ast.AST]:
+    """nodes of the loop that run as part of it (not the bodies of functions / lambdas defined inside it)"""
+    skip: set[int] = set()
+    for d in ast.walk(lp):
+        if isinstance(d, (ast.FunctionDef, ast.AsyncFunctionDef, ast.Lambda)) and d is not lp:
+            skip |= {id(x) for x in ast.walk(d) if x is not d}
+    return [n for n in ast.walk(lp) if id(n) not in skip]
+
+
+def _state_names(g: FuncInfo) -> set[str]:
+    """names under which g holds the threaded state: parameters called schemas / parameters or annotated with the state classes,
+    locals created as Schemas(...) / Parameters(...)"""
+    out = {p.arg for p in g.params if p.arg in THREADED or (p.annotation is not None and _type_names(p.annotation) & STATE_CLASSES)}
+    return out | set(Locals(g.node).bound_from(lambda t_: t_.startswith(("Schemas(", "Parameters(")), "assign"))
+
+
+def _taken_from(v: ast.AST | None) -> str | None:
+    """the collection that `v` takes one element out of: <c>.pop(...) / .popleft() / .popitem(), next(<c>), <c>[0] / <c>[-1]"""
+    while isinstance(v, ast.Await):
+        v = v.value
+    if isinstance(v, ast.Call) and isinstance(v.func, ast.Attribute) and v.func.attr in TAKES:
+        return _root_name(v.func.value)
+    if isinstance(v, ast.Call) and call_name(v) == "next" and v.args:
+        return _root_name(v.args[0])
+    if isinstance(v, ast.Subscript) and isinstance(v.value, ast.Name):
+        i = v.slice.operand if isinstance(v.slice, ast.UnaryOp) else v.slice
+        if isinstance(i, ast.Constant) and isinstance(i.value, int):
+            return v.value.id
+    return None
+
+
+def _items_of(lp: ast.While) -> set[str]:
+    return _take(lp)[0]
+
+
+def _take(lp: ast.While) -> tuple[set[str], set[str]]:
+    """(items, worklists).  The `current item` of a while loop: what an iteration takes out of a collection (worklist form:
+    x = pending.pop(...), next(it), pending[0]) and the locals computed from it.  A loop without such a take (`while still_making_progress`, `while True` around a
+    round over all items) has no current item: its iterations are rounds, and how it ends is the fixpoint's own business."""
+    own = _own_nodes(lp)
+    items: set[str] = set()
+    sources: set[str] = set()
+    binds: list[tuple[set[str], ast.AST]] = []
+    for n in own:
+        if isinstance(n, ast.Assign):
+            for t in n.targets:
+                if isinstance(t, (ast.Tuple, ast.List)) and isinstance(n.value, (ast.Tuple, ast.List)) and len(t.elts) == len(n.value.elts):
+                    binds += [(names_in(x), v_) for x, v_ in zip(t.elts, n.value.elts)]  # a, b = x, y
+                elif isinstance(t, (ast.Name, ast.Tuple, ast.List)):
+                    binds.append((names_in(t), n.value))
+        elif isinstance(n, (ast.AnnAssign, ast.NamedExpr, ast.AugAssign)) and n.value is not None and isinstance(n.target, ast.Name):
+            binds.append(({n.target.id}, n.value))
+        elif isinstance(n, (ast.For, ast.comprehension)):
+            binds.append((names_in(n.target), n.iter))
+    for tg, v in binds:
+        src = _taken_from(v)
+        if src is not None:
+            items |= tg
+            sources.add(src)
+    changed = bool(items)
+    while changed:
+        changed = False
+        for tg, v in binds:
+            new = tg - items - sources
+            if new and names_in(v) & items:
+                items |= new
+                changed = True
+    return items - sources, sources
+
+
+def _decided_by_item(cfg: CFG, lp: ast.While, ex: ast.stmt, items: set[str]) -> ast.stmt | None:
+    """the branch on the current item that decides whether this iteration reaches the exit `ex` (reached from some of its arms, not from
+    all of them); indifferent to nested-if / early-continue form and to branch order"""
+    def reaches(s0: object) -> bool:
+        return s0 is not lp and (s0 is ex or ex in cfg.reachable_from(s0, avoid=lambda n: n is lp))
+
+    for t in _own_nodes(lp):
+        if not isinstance(t, (ast.If, ast.Match)) or t not in cfg.succ:
+            continue
+        if not (names_in(t.test if isinstance(t, ast.If) else t.subject) & items):
+            continue
+        arms = [s0 for s0 in cfg.succ[t] if not isinstance(s0, ast.ExceptHandler)]
+        if len(arms) > 1 and len({reaches(s0) for s0 in arms}) > 1:
+            return t
+    return None
+
+
+def _loops_contain(rep: Report, ix: Any, cfgs: dict[str, CFG]) -> None:
+    """Loops of the containment functions and of the private helpers they delegate to (a helper's loop counts when it works on the
+    threaded state: that is where a per-item loop goes when a round is extracted).  `for`: an iteration is an item, so no return / own
+    break.  `while`: an exit is item-caused when a branch on the current item decides whether it is reached."""
+    n_l = 0
+    done: set[str] = set()
+    for f in ix.all_functions:
+        if short(f) not in CONTAIN_LOOPS:
+            continue
+        for g in region(ix, f):
+            if g.qual in done:
+                continue
+            done.add(g.qual)
+            named = short(g) in CONTAIN_LOOPS
+            state = set() if named else _state_names(g)
+            for lp in [n for n in ast.walk(g.node) if isinstance(n, (ast.For, ast.AsyncFor, ast.While))]:
+                if not named and not (names_in(lp) & state):
+                    continue
+                n_l += 1
+                head = role_anon(lp.iter if not isinstance(lp, ast.While) else lp.test, g.node)[:40]
+                exits = [st for st in _own_nodes(lp) if st is not lp and (
+                    isinstance(st, ast.Return) or (isinstance(st, ast.Break) and enclosing_loop_body(g.node, st) is lp))]
+                bad = 0
+                if isinstance(lp, ast.While) and exits:
+                    items = _items_of(lp)
+                    cfg = cfg_of(g, cfgs)
+                    exits = [st for st in exits if items and _decided_by_item(cfg, lp, st, items) is not None]
+                for st in exits:
+                    bad += 1
+                    rep.fail("R08.4", f"{short(g)}::{type(st).__name__.lower()}-inside-loop[{head}]",
+                             "one item ends the traversal of all remaining items (`return`/`break` inside the per-item loop)", where(g, st),
+                             lhs=norm(st)[:60], rhs="continue / re-queue")
+                if not bad:
+                    rep.ok("R08.4", f"{short(g)}::loop[{head}]", "no item-caused return/break", "per-item containment")
+    rep.floor("containment_loops", n_l, 8)
 
 
 # ---- R08.1: allOf parents ------------------------------------------------------------------------------------------------------
@@ -401,7 +616,7 @@ def _exclusive_dependants(rep: Report, ix: Any, cfgs: dict[str, CFG]) -> None:
                       "(no rejection of an already registered class of that name): the removal cascade pops a class that other schemas "
                       "share, and what remains refers to a module that is not generated", where(f, c),
                       lhs=norm(rt) if rt is not None else None, rhs="roots (forwarded) or {<name rejected when already in classes_by_name>}")
-    rep.floor("dependency_recording_sites", n_sites, 2)
+    rep.floor("dependency_recording_sites", n_sites, 1)
 
 
 # ---- R08.7: validation of the document models -----------------------------------------------------------------------------------------
@@ -445,12 +660,14 @@ def _piece_validators_do_not_raise(rep: Report, ix: Any) -> None:
                       "a validator of a piece-level document model raises: the document is validated in one step, so one such piece makes "
                       "the whole generation fail instead of being omitted with a diagnostic", where(m, raising[0][1] if raising else m.node),
                       lhs=[norm(n)[:60] for _, n in raising], rhs="no raise (the parser reports the piece and goes on)")
-    rep.floor("document_model_validation_hooks", n_hooks, 2)
+    rep.floor("document_model_validation_hooks", n_hooks, 1)
 
 
 # ---- R08.8: built => handed on -----------------------------------------------------------------------------------------------------
 
 NON_RETAINING = set(dir(builtins)) | {"cast"}
+# calls whose result is (a collection of) the very object(s) they were given
+CONVERSIONS = {"cast", "list", "tuple", "set", "frozenset", "sorted", "reversed", "iter", "copy", "deepcopy"}
 
 
 def _is_error_ctor(c: ast.Call) -> bool:
@@ -463,46 +680,226 @@ def _root_name(e: ast.AST) -> str | None:
     return e.id if isinstance(e, ast.Name) else None
 
 
-def _hands_on(st: object, al: set[str]) -> bool:
-    """the statement passes the product (one of the aliases `al`) to something that outlives the iteration: as (part of) an argument of a
-    call that is neither a builtin predicate/conversion, nor an error constructor, nor a method of the product itself; stored into a
-    container or attribute; yielded; or a nested loop that does so for each of a collection"""
+def _annotation(e: ast.AST | None) -> ast.AST | None:
+    """an annotation with string forms ("Endpoint") parsed"""
+    if isinstance(e, ast.Constant) and isinstance(e.value, str):
+        try:
+            return ast.parse(e.value, mode="eval").body
+        except SyntaxError:
+            return None
+    return e
+
+
+def _union_members(e: ast.AST | None) -> list[ast.AST]:
+    """the alternatives of a type annotation: A | B, Union[A, B], Optional[A]; anything else is its own single alternative"""
+    e = _annotation(e)
+    if e is None:
+        return []
+    if isinstance(e, ast.BinOp) and isinstance(e.op, ast.BitOr):
+        return _union_members(e.left) + _union_members(e.right)
+    if isinstance(e, ast.Subscript) and (dotted(e.value) or "").rsplit(".", 1)[-1] in ("Union", "Optional"):
+        return [m for x in (e.slice.elts if isinstance(e.slice, ast.Tuple) else [e.slice]) for m in _union_members(x)]
+    return [e]
+
+
+def _type_names(e: ast.AST | None) -> set[str]:
+    """class names of the alternatives of an annotation (list[X] is `list`, not X)"""
+    out = set()
+    for m in _union_members(e):
+        m = m.value if isinstance(m, ast.Subscript) else m
+        out.add((dotted(m) or "").rsplit(".", 1)[-1])
+    return out
+
+
+def _callee(ix: Any, f: FuncInfo, c: ast.Call) -> FuncInfo | None:
+    cn = call_name(c)
+    head, _, last = cn.rpartition(".")
+    if head in ("self", "cls") and f.cls is not None:
+        return ix.find_method(f.cls, last)
+    r = ix.resolve(f.module, cn)
+    if r is not None and r[0] == "func":
+        return r[1]
+    hits = [h for h in ix.all_functions if h.name == last and (not head or (h.cls is not None and h.cls.name == head.rsplit(".", 1)[-1]))]
+    return hits[0] if len(hits) == 1 else None
+
+
+def _fallible_products(ix: Any, f: FuncInfo, st: ast.Assign, errs: set[str]) -> list[str]:
+    """Which targets of `a, b, c = step(..., schemas=...)` are products that may be an error.  The roles come from what the step is
+    declared to return - tuple[<product or error>, Schemas, ...]: an element typed as the threaded state is the state, an element whose
+    type admits one of the error classes is a fallible product, anything else (a count, a list of records) is neither - and not from
+    the position of the element.  A step without a usable declaration: the targets this function itself narrows with
+    isinstance(<target>, <error class>), the threaded state being what it passed in."""
+    elts = st.targets[0].elts
+    call = st.value
+    g = _callee(ix, f, call)
+    ann = _annotation(g.node.returns) if g is not None else None
+    if isinstance(ann, ast.Subscript) and (dotted(ann.value) or "").rsplit(".", 1)[-1] in ("tuple", "Tuple"):
+        parts = list(ann.slice.elts) if isinstance(ann.slice, ast.Tuple) else [ann.slice]
+        if len(parts) == len(elts) and not any(isinstance(p_, ast.Constant) and p_.value is Ellipsis for p_ in parts):
+            out = []
+            for t, p_ in zip(elts, parts):
+                kinds = _type_names(p_)
+                if isinstance(t, ast.Name) and not (kinds & STATE_CLASSES) and kinds & ERROR_CLASSES:
+                    out.append(t.id)
+            return out
+    passed = {k.value.id for k in call.keywords if k.arg in THREADED and isinstance(k.value, ast.Name)} | set(THREADED)
+    return [t.id for t in elts if isinstance(t, ast.Name) and t.id not in passed and t.id in errs]
+
+
+def _is_predicate(e: ast.AST) -> bool:
+    """an expression whose value is a fact about its operands, not (a part of) them"""
+    if isinstance(e, (ast.Compare, ast.Constant)) or (isinstance(e, ast.UnaryOp) and isinstance(e.op, ast.Not)):
+        return True
+    if isinstance(e, ast.BoolOp):
+        return all(_is_predicate(v) for v in e.values)
+    if isinstance(e, ast.Call):
+        last = call_name(e).rsplit(".", 1)[-1]
+        return last in NON_RETAINING and last not in CONVERSIONS
+    return False
+
+
+def _hands_on(st: object, al: frozenset[str] | set[str], parts: frozenset[str] | set[str] = frozenset(), carries: Any = None) -> bool:
+    """the statement passes the product (held by the locals `al`; `parts` hold something computed from it) to something that outlives
+    the iteration: as (part of) an argument of a call that is neither a builtin predicate/conversion, nor an error constructor, nor a
+    method of the product itself; stored into a container or attribute; yielded; or a nested loop that does so for each of a
+    collection (for each of the products, when the loop runs over a collection that holds them)"""
     if not isinstance(st, ast.stmt):
         return False
-    if isinstance(st, (ast.For, ast.AsyncFor)) and any(_hands_on(x, al) for b in st.body for x in ast.walk(b) if isinstance(x, ast.stmt)):
-        return True
+    m = set(al) | set(parts)
+    if isinstance(st, (ast.For, ast.AsyncFor)):
+        inner = set(al) | (names_in(st.target) if carries is not None and carries(st.iter, al) else set())
+        if any(_hands_on(x, inner, parts, carries) for b in st.body for x in ast.walk(b) if isinstance(x, ast.stmt)):
+            return True
     for n in walk_own(st):
         if isinstance(n, ast.Call) and call_name(n).rsplit(".", 1)[-1] not in NON_RETAINING and not _is_error_ctor(n) and \
                 _root_name(n.func) not in al:
-            if any(names_in(a) & al for a in [*n.args, *[k.value for k in n.keywords]]):
+            if any(names_in(a) & m for a in [*n.args, *[k.value for k in n.keywords]]):
                 return True
-        if isinstance(n, (ast.Yield, ast.YieldFrom)) and names_in(n.value) & al:
+        if isinstance(n, (ast.Yield, ast.YieldFrom)) and names_in(n.value) & m:
             return True
-    if isinstance(st, (ast.Assign, ast.AugAssign, ast.AnnAssign)) and st.value is not None and names_in(st.value) & al:
+    if isinstance(st, (ast.Assign, ast.AugAssign, ast.AnnAssign)) and st.value is not None and names_in(st.value) & m:
         tgts = st.targets if isinstance(st, ast.Assign) else [st.target]
-        if any(isinstance(t, (ast.Subscript, ast.Attribute)) and _root_name(t) not in al for t in tgts):
+        if any(isinstance(t, (ast.Subscript, ast.Attribute)) and _root_name(t) not in m for t in tgts):
             return True
     return False
 
 
-def _is_error_test(e: ast.expr, al: set[str], assume: bool) -> bool | None:
-    """three-valued value of a test under the assumption `the product is (not) an error`"""
-    if isinstance(e, ast.BoolOp):
-        vals = [_is_error_test(v, al, assume) for v in e.values]
-        if isinstance(e.op, ast.And):
-            return False if any(v is False for v in vals) else (True if all(v is True for v in vals) else None)
-        return True if any(v is True for v in vals) else (False if all(v is False for v in vals) else None)
-    if isinstance(e, ast.UnaryOp) and isinstance(e.op, ast.Not):
-        v = _is_error_test(e.operand, al, assume)
-        return None if v is None else not v
-    if isinstance(e, ast.Call) and call_name(e) == "isinstance" and len(e.args) == 2 and isinstance(e.args[0], ast.Name) and e.args[0].id in al:
-        kinds = e.args[1].elts if isinstance(e.args[1], ast.Tuple) else [e.args[1]]
-        is_err = [norm(k_).rsplit(".", 1)[-1] in ERROR_CLASSES for k_ in kinds]
-        if all(is_err):
-            return assume
-        if assume and not any(is_err):
-            return False  # an error value is not an instance of a property / model class
-    return None
+class _Product:
+    """One assumption about the product of a step (`it is an error` / `it is a value`): decides tests on it, and follows it through the
+    locals that come to hold it."""
+
+    def __init__(self, lc: Locals, assume: bool) -> None:
+        self.lc = lc
+        self.assume = assume
+
+    def test(self, e: ast.expr, al: set[str] | frozenset[str], depth: int = 0) -> bool | None:
+        """three-valued value of a test under the assumption; a local that holds the outcome of such a test (ok = isinstance(x, E)) is
+        the test"""
+        if isinstance(e, ast.BoolOp):
+            vals = [self.test(v, al, depth) for v in e.values]
+            if isinstance(e.op, ast.And):
+                return False if any(v is False for v in vals) else (True if all(v is True for v in vals) else None)
+            return True if any(v is True for v in vals) else (False if all(v is False for v in vals) else None)
+        if isinstance(e, ast.UnaryOp) and isinstance(e.op, ast.Not):
+            v = self.test(e.operand, al, depth)
+            return None if v is None else not v
+        if isinstance(e, ast.NamedExpr):
+            return self.test(e.value, al, depth)
+        if isinstance(e, ast.Name) and e.id not in al and depth < 3:
+            ds = self.lc.defs.get(e.id, [])
+            if len(ds) == 1 and ds[0][0] == "assign" and isinstance(ds[0][2], ast.expr):
+                return self.test(ds[0][2], al, depth + 1)
+            return None
+        if isinstance(e, ast.Call) and call_name(e) == "isinstance" and len(e.args) == 2 and isinstance(e.args[0], ast.Name) and e.args[0].id in al:
+            kinds = e.args[1].elts if isinstance(e.args[1], ast.Tuple) else [e.args[1]]
+            is_err = [norm(k_).rsplit(".", 1)[-1] in ERROR_CLASSES for k_ in kinds]
+            if all(is_err):
+                return self.assume
+            if self.assume and not any(is_err):
+                return False  # an error value is not an instance of a property / model class
+        return None
+
+    def carries(self, e: ast.AST | None, al: set[str] | frozenset[str]) -> bool:
+        """the value of e is the product, or a collection / conversion / conditional choice that holds it (also: an error built from it)"""
+        if e is None:
+            return False
+        if isinstance(e, ast.Name):
+            return e.id in al
+        if isinstance(e, (ast.List, ast.Tuple, ast.Set)):
+            return any(self.carries(x, al) for x in e.elts)
+        if isinstance(e, ast.Dict):
+            return any(self.carries(x, al) for x in e.values)
+        if isinstance(e, (ast.Starred, ast.Await, ast.NamedExpr)):
+            return self.carries(e.value, al)
+        if isinstance(e, ast.IfExp):
+            v = self.test(e.test, al)
+            return any(self.carries(x, al) for x in ([e.body] if v is True else [e.orelse] if v is False else [e.body, e.orelse]))
+        if isinstance(e, ast.BoolOp):
+            return any(self.carries(x, al) for x in e.values)
+        if isinstance(e, ast.BinOp) and isinstance(e.op, (ast.Add, ast.BitOr)):
+            return self.carries(e.left, al) or self.carries(e.right, al)
+        if isinstance(e, (ast.ListComp, ast.SetComp, ast.GeneratorExp)):
+            inner = set(al)
+            for gen in e.generators:
+                if self.carries(gen.iter, inner):
+                    inner |= names_in(gen.target)
+            return self.carries(e.elt, inner)
+        if isinstance(e, ast.Call):
+            args = [*e.args, *[k.value for k in e.keywords]]
+            if call_name(e).rsplit(".", 1)[-1] in CONVERSIONS:
+                return any(self.carries(a, al) for a in args)
+            if _is_error_ctor(e):
+                return any(names_in(a) & al for a in args)
+            if isinstance(e.func, ast.Attribute) and _root_name(e.func) in al:
+                return True  # x = x.with_something(...): what a method of the product returns stands for the product
+        return False
+
+    def after(self, st: object, al: frozenset[str], parts: frozenset[str]) -> tuple[frozenset[str], frozenset[str]]:
+        """(the locals that hold the product, the locals that hold something computed from it) once `st` has run"""
+        hold, part = set(al), set(parts)
+
+        def bind(name: str, v: ast.AST | None, keep: bool = False) -> None:
+            if self.carries(v, al):
+                hold.add(name)
+                part.discard(name)
+            elif v is not None and names_in(v) & (al | parts) and not _is_predicate(v):
+                part.add(name)
+                if not keep:
+                    hold.discard(name)
+            elif not keep:
+                hold.discard(name)
+                part.discard(name)
+
+        if isinstance(st, (ast.For, ast.AsyncFor)):
+            for x in names_in(st.target):
+                if self.carries(st.iter, al):
+                    hold.add(x)
+                else:
+                    hold.discard(x)
+                part.discard(x)
+            return frozenset(hold), frozenset(part)
+        if not isinstance(st, ast.stmt):
+            return al, parts
+        for n in walk_own(st):
+            if isinstance(n, ast.NamedExpr) and isinstance(n.target, ast.Name):
+                bind(n.target.id, n.value)
+        if isinstance(st, ast.AugAssign) and isinstance(st.target, ast.Name):
+            bind(st.target.id, st.value, keep=True)
+        if isinstance(st, (ast.Assign, ast.AnnAssign)) and st.value is not None:
+            for t in (st.targets if isinstance(st, ast.Assign) else [st.target]):
+                if isinstance(t, ast.Name):
+                    bind(t.id, st.value)
+                elif isinstance(t, (ast.Tuple, ast.List)):
+                    vs = st.value.elts if isinstance(st.value, (ast.Tuple, ast.List)) and len(st.value.elts) == len(t.elts) else None
+                    for i, x in enumerate(t.elts):
+                        if isinstance(x, ast.Name):
+                            bind(x.id, vs[i] if vs is not None else st.value)
+        gone: set[str] = set()
+        if isinstance(st, (ast.With, ast.AsyncWith)):
+            gone = set().union(*[names_in(item.optional_vars) for item in st.items])
+        if isinstance(st, ast.Delete):
+            gone = {t.id for t in st.targets if isinstance(t, ast.Name)}
+        return frozenset(hold - gone), frozenset(part - gone)
 
 
 def _products_not_dropped(rep: Report, ix: Any, cfgs: dict[str, CFG]) -> None:
@@ -512,50 +909,49 @@ def _products_not_dropped(rep: Report, ix: Any, cfgs: dict[str, CFG]) -> None:
             continue
         steps = [st for st in ast.walk(f.node) if isinstance(st, ast.Assign) and isinstance(st.value, ast.Call)
                  and {k.arg for k in st.value.keywords} & set(THREADED) and len(st.targets) == 1 and isinstance(st.targets[0], ast.Tuple)
-                 and len(st.targets[0].elts) >= 2 and isinstance(st.targets[0].elts[0], ast.Name)]
+                 and len(st.targets[0].elts) >= 2]
         if not steps:
             continue
         cfg = cfg_of(f, cfgs)
         lc = Locals(f.node)
+        errs = error_names(f.node)
         for st in steps:
             lp = enclosing_loop_body(f.node, st)
             if lp is None or st not in cfg.succ:
                 continue
-            n_p += 1
-            prod = st.targets[0].elts[0].id
-            al = {prod}
-            for _ in range(2):  # plain aliases: y = x, y = cast(T, x)
-                for name, ds in lc.defs.items():
-                    for kind, _, v in ds:
-                        if kind == "assign" and v is not None and names_in(v) & al and (
-                                isinstance(v, ast.Name) or (isinstance(v, ast.Call) and call_name(v).rsplit(".", 1)[-1] in NON_RETAINING)):
-                            al = al | {name}
-            dropped: list[str] = []
-            for assume in (True, False):
-                seen: set[int] = {id(st)}
-                stack: list[object] = [st]
-                while stack:
-                    n = stack.pop()
-                    nxt = set(cfg.succ.get(n, ()))
-                    if isinstance(n, ast.If) and n is not st:
-                        v = _is_error_test(n.test, al, assume)
-                        if v is True:
-                            nxt = {n.body[0]}
-                        elif v is False:
-                            nxt = _else_successors(cfg, n)
-                    for s_ in nxt:
-                        if s_ is lp or (isinstance(s_, ast.Break) and enclosing_loop_body(f.node, s_) is lp):
-                            dropped.append(f"{'error' if assume else 'value'} dropped after `{norm(n)[:50]}`" if isinstance(n, ast.AST) else "dropped")
-                            continue
-                        if id(s_) in seen or s_ is EXIT or _hands_on(s_, al):
-                            continue
-                        if isinstance(s_, ast.stmt) and any(isinstance(t, ast.Name) and isinstance(t.ctx, ast.Store) and t.id in al
-                                                            for t in walk_own(s_)):
-                            continue  # rebound without being handed on: a later step owns the name from here
-                        seen.add(id(s_))
-                        stack.append(s_)
-            rep.check(not dropped, "R08.8", f"{short(f)}::{call_name(st.value).rsplit('.', 1)[-1]}-product-handed-on[{role_anon(getattr(lp, 'iter', getattr(lp, 'test', None)), f.node)[:40]}]",
-                      "an item is built (a step that can fail its container and registers classes in the threaded state) and then dropped "
-                      "without its product or error being handed on: a piece that does not contribute can damage what does not depend on it",
-                      where(f, st), lhs=sorted(set(dropped))[:4], rhs="every end of the iteration after the build hands the product on")
-    rep.floor("build_steps_in_item_loops", n_p, 6)
+            for prod in _fallible_products(ix, f, st, errs):
+                n_p += 1
+                dropped: list[str] = []
+                for assume in (True, False):
+                    pr = _Product(lc, assume)
+                    none: frozenset[str] = frozenset()
+                    seen: set[tuple[int, frozenset[str], frozenset[str]]] = {(id(st), frozenset({prod}), none)}
+                    stack: list[tuple[object, frozenset[str], frozenset[str]]] = [(st, frozenset({prod}), none)]
+                    while stack:
+                        n, al, parts = stack.pop()
+                        nxt = set(cfg.succ.get(n, ()))
+                        if isinstance(n, ast.If) and n is not st:
+                            v = pr.test(n.test, al)
+                            if v is True:
+                                nxt = {n.body[0]}
+                            elif v is False:
+                                nxt = _else_successors(cfg, n)
+                        what = "error" if assume else "value"
+                        for s_ in nxt:
+                            if s_ is lp or (isinstance(s_, ast.Break) and enclosing_loop_body(f.node, s_) is lp):
+                                dropped.append(f"{what} dropped after `{norm(n)[:50]}`" if isinstance(n, ast.AST) else "dropped")
+                                continue
+                            if s_ is EXIT or _hands_on(s_, al, parts, pr.carries):
+                                continue
+                            al2, parts2 = pr.after(s_, al, parts)
+                            if not al2:  # nothing holds it any more, and it was not handed on
+                                dropped.append(f"{what} overwritten by `{norm(s_)[:50]}`" if isinstance(s_, ast.AST) else "overwritten")
+                                continue
+                            if (id(s_), al2, parts2) not in seen:
+                                seen.add((id(s_), al2, parts2))
+                                stack.append((s_, al2, parts2))
+                rep.check(not dropped, "R08.8", f"{short(f)}::{call_name(st.value).rsplit('.', 1)[-1]}-product-handed-on[{role_anon(getattr(lp, 'iter', getattr(lp, 'test', None)), f.node)[:40]}]",
+                          "an item is built (a step that can fail its container and registers classes in the threaded state) and then dropped "
+                          "without its product or error being handed on: a piece that does not contribute can damage what does not depend on it",
+                          where(f, st), lhs=sorted(set(dropped))[:4], rhs="every end of the iteration after the build hands the product on")
+    rep.floor("build_steps_in_item_loops", n_p, 3)
